@@ -1308,8 +1308,10 @@ func (a *Agent) addRemoteCandidate(cand Candidate) bool { //nolint:cyclop
 	set = a.replaceRedundantPeerReflexiveCandidates(set, cand)
 
 	acceptRemotePassiveTCPCandidate := false
-	// Assert that TCP4 or TCP6 is a enabled NetworkType locally
-	if !a.disableActiveTCP && cand.TCPType() == TCPTypePassive {
+	// Assert that TCP4 or TCP6 is a enabled NetworkType locally. The active candidates
+	// created for it are host candidates, so those have to be enabled as well.
+	if !a.disableActiveTCP && cand.TCPType() == TCPTypePassive &&
+		containsCandidateType(CandidateTypeHost, a.candidateTypes) {
 		if slices.Contains(configuredNetworkTypes(a.networkTypes), cand.NetworkType()) {
 			acceptRemotePassiveTCPCandidate = true
 		}
